@@ -124,10 +124,10 @@ def init (k : Kind) (c : EArgs) : EArgs :=
   | .aerbr =>
     if n 0 ≠ 0 then { n := #[2, 0, 0, 0, 0, 0, 0, 0, 0, 0, 0, 0, 0, 0] }
     else { n := #[n 1, n 2, n 3, n 4, 0, 0, 0, 0, 0, 0, 0, 0, 0, 0] }
-  | .ghes =>      -- ctor [id,enabled]; state [id,en,nr,ms,mrl,esbl, gas@6..10, notif@11..19]
-    { n := #[n 0, n 1, 0, 0, 0, 0, 0, 0, 0, 0, 0, 0, 0, 0, 0, 0, 0, 0, 0, 0] }
+  | .ghes =>      -- ctor [id,enabled]; state [id,en,nr,ms,mrl,esbl, gas@6..10, notif@11..19 (Polled, length 28)]
+    { n := #[n 0, n 1, 0, 0, 0, 0, 0, 0, 0, 0, 0, 0, 28, 0, 0, 0, 0, 0, 0, 0] }
   | .ghesv2 =>    -- … + gas2@20..24, preserve@25, write@26
-    { n := #[n 0, n 1, 0, 0, 0, 0, 0, 0, 0, 0, 0, 0, 0, 0, 0, 0, 0, 0, 0, 0, 0, 0, 0, 0, 0, 0, 0] }
+    { n := #[n 0, n 1, 0, 0, 0, 0, 0, 0, 0, 0, 0, 0, 28, 0, 0, 0, 0, 0, 0, 0, 0, 0, 0, 0, 0, 0, 0] }
   | .notif => { n := #[n 0, 28, 0, 0, 0, 0, 0, 0, 0] }  -- ctor [type]; state = the 9 values
   | .ges =>       -- ctor [correctable, uncorrectable, severity]; state [status, severity]
     { n := #[(if n 0 = 1 then 2 else if n 0 > 1 then 8 else 0) ||| (if n 1 = 1 then 1 else if n 1 > 1 then 4 else 0), n 2] }
